@@ -448,6 +448,20 @@ func (ex *Exec) Run() {
 	if final == nil {
 		return // never returns normally
 	}
+	// deferred calls run at exit, last registered first, on the paths that registered them
+	for i := len(ex.deferred) - 1; i >= 0; i-- {
+		d := ex.deferred[i]
+		ex.st = final
+		a, b := ex.fork(d.regPC)
+		ex.st = a
+		ex.preArgs = append([]Term{}, d.args...)
+		ex.call(d.call)
+		ex.preArgs = nil
+		final = ex.merge(ex.st, b)
+		if final == nil || ex.unsupported != "" {
+			return
+		}
+	}
 	ex.st = final
 	names := copyNames(ex.params)
 	for i, rv := range ex.resVars {
